@@ -8,6 +8,7 @@ import GlotaranProofs.Lemmas.C17
 import GlotaranProofs.Lemmas.C17Ascii
 import GlotaranProofs.Lemmas.C17Path
 import GlotaranProofs.Lemmas.C17Tree
+import GlotaranProofs.Lemmas.C17Scheme
 namespace Glotaran.C17
 
 /-! ## the text constants: generated from the source, run by the regex machine
@@ -34,14 +35,41 @@ theorem generated_word_eq_model (s : Str) : wordFindall s = wordRunsAux s [] := 
 example : wordFindall "(s1, s_2)x".toList = ["s1".toList, "s_2".toList, "x".toList] ∧ wordFindall "(, )".toList = [] := by
   simp only [generated_word_eq_model]; decide
 
-/-- **`rp.number_scientific.match(s)`** — the generated pattern, all repeats greedy, with the engine's backtracking —
-    matches exactly sign? digits* (`.`? digits+) `[eE]` sign? digits+ at the front, and the first match it finds ends
-    where the closed form says -/
+/-- **`rp.number_scientific.fullmatch(s)`** — the generated pattern, all repeats greedy, with the engine's
+    backtracking, accepted only at the end of the string (the way `convert_scientific_to_float` applies it since the
+    repair fixes/C17/C17-scientific-fullmatch.patch) — answers `some []` exactly when the whole string is
+    sign? digits* (`.`? digits+) `[eE]` sign? digits+ and `none` for every other string (`sciRestDet`); a number-like
+    prefix is not a match any more -/
 theorem generated_number_scientific_eq_model (s : Str) : sciRest s = sciRestDet s := sciRest_eq_det s
 
-example : sciRest "1e3".toList = some [] ∧ sciRest "-.5E-3x".toList = some ['x'] ∧ sciRest "12.e5".toList = none ∧
-    sciRest "1.5".toList = none ∧ sciRest "e5".toList = none ∧ sciRest "12e+5.5".toList = some ".5".toList := by
+example : sciRest "1e3".toList = some [] ∧ sciRest "-.5E-3".toList = some [] ∧ sciRest "-.5E-3x".toList = none ∧
+    sciRest "12.e5".toList = none ∧ sciRest "1.5".toList = none ∧ sciRest "e5".toList = none ∧
+    sciRest "12e+5.5".toList = none ∧ sciRest "1e3x".toList = none ∧ sciRest "12.5e+05".toList = some [] := by
   simp only [generated_number_scientific_eq_model]; decide
+
+/-- **The scientific-notation conversion of the loader is total** (the repair): for every string value,
+    `convert_scientific_to_float` returns the float when the whole string is a scientific-notation number
+    (`sciFullDet`, the closed form of `generated_number_scientific_eq_model`) and the string itself otherwise — it
+    never raises, so no string value can make `load_model` fail in `sanity_scientific_notation_conversion`.
+    (Before the repair — `match` instead of `fullmatch` — a string with a number-like prefix such as `1e3x`
+    reached `float()` and raised ValueError: the branch `some _ => none` of `sciConv`, now unreachable.) -/
+theorem scientific_conversion_total (s : Str) :
+    sciConv (.str s) = (if sciFullDet s then some (.sci s) else some (.str s)) ∧ sciConv (.str s) ≠ none := by
+  refine ⟨sciConv_str s, ?_⟩
+  have h := sciConv_str_total s
+  intro hn
+  rw [hn] at h
+  exact absurd h (by decide)
+
+example : sciFullDet "1e3".toList = true ∧ sciFullDet "1e3x".toList = false ∧ sciFullDet "12e+5.5".toList = false := by decide
+
+example : sciConv (.str "1e3x".toList) = some (.str "1e3x".toList) ∧ sciConv (.str "1e3".toList) = some (.sci "1e3".toList) ∧
+    sciConv (.str "12e+5.5".toList) = some (.str "12e+5.5".toList) := by
+  have h : sciFullDet "1e3".toList = true ∧ sciFullDet "1e3x".toList = false ∧ sciFullDet "12e+5.5".toList = false := by decide
+  refine ⟨?_, ?_, ?_⟩
+  · rw [(scientific_conversion_total _).1, h.2.1]; rfl
+  · rw [(scientific_conversion_total _).1, h.1]; rfl
+  · rw [(scientific_conversion_total _).1, h.2.2]; rfl
 
 /-- **the f-string of `save_model`** renders a tuple key by its first two elements as `(a, b)`, a string key by its
     first two characters, and raises (IndexError) on anything shorter -/
@@ -96,10 +124,14 @@ theorem tuple_key_roundtrip_counterexample :
     transport changes): for every tree of the shape `Model.as_dict()` produces — a dict of collections
     (lists of items or dicts label → item), items with arbitrary nested property values, tuple-keyed dicts
     (K-matrices) of any size as property values — whose tuple keys are pairs of labels, whose string keys
-    do not look like tuples and whose strings do not look like scientific-notation numbers,
+    do not look like tuples and none of whose strings is a scientific-notation number in full
+    (`noSci`: `number_scientific.fullmatch` fails — a label `1e3x` or `2e5_data` is fine since the repair
+    fixes/C17/C17-scientific-fullmatch.patch, a label `1e3` is not),
     `save_model` succeeds and `sanitize_yaml` of the written file is the original tree.
     (The three excluded input classes are recorded findings; their witnesses:
-    `tuple_key_roundtrip_counterexample`, `model_spec_roundtrip_excluded`.) -/
+    `tuple_key_roundtrip_counterexample`, `model_spec_roundtrip_excluded`.  What stays excluded on the
+    scientific-notation side is exactly the strings that ARE such numbers in full: `save_model` writes them quoted,
+    but the loader converts every string value that fully matches, on purpose — hand-written `1E7` values.) -/
 theorem model_spec_roundtrip (m : Y) (hc : cleanModel m = true) (hs : noSci m = true) :
     roundTrip m = some (yamlT m) := by
   match m, hc with
@@ -125,12 +157,15 @@ def exampleModel : Y :=
 example : cleanModel exampleModel = true ∧ noSci exampleModel = true := by decide
 example : roundTrip exampleModel = some (yamlT exampleModel) := by rfl
 
-/-- witnesses of the excluded classes (each replayed on the real code on every run): a compartment `1e3`
-    becomes the float 1000.0, `1e3x` makes the loader raise, a string key `(s5)` of a str-keyed dict becomes
-    the tuple `('s5',)`, a malformed tuple key next to a well-formed one is silently dropped -/
+/-- witnesses of the excluded classes (each replayed on the real code on every run): a compartment `1e3` — a
+    string that is a scientific-notation number in full, the only kind of string still converted — becomes the
+    float 1000.0; a string key `(s5)` of a str-keyed dict becomes the tuple `('s5',)`; a malformed tuple key next
+    to a well-formed one is silently dropped.  Regression of the repair (second component): `1e3x`, which made
+    the loader raise ValueError before `fullmatch`, is no longer excluded — it is left alone. -/
 theorem model_spec_roundtrip_excluded :
     sciConv (.str "1e3".toList) = some (.sci "1e3".toList) ∧
-    sciConv (.str "1e3x".toList) = none ∧
+    -- before the repair this raised (`= none`): number_scientific.match accepted the prefix, float("1e3x") failed
+    sciConv (.str "1e3x".toList) = some (.str "1e3x".toList) ∧
     sanEntry (.map (.cons (.s "(s5)".toList) (.str "sh1".toList) .nil))
       = .map (.cons (.t ["s5".toList]) (.str "sh1".toList) .nil) ∧
     -- a K-matrix with one well-formed and one malformed key loses the malformed entry
@@ -464,5 +499,105 @@ example :
     asciiRead (asciiWrite .wavelengthExplicit d id) = ([0, 1, 2], [5, 6], [[1, 4], [2, 5], [3, 6]]) := by decide
 
 end Ascii
+
+/-! ## scheme.yml / result.yml: the dataclass ↔ yml mapping
+
+The field tables `Generated.schemeFields` / `Generated.resultFields` are `dataclasses.fields` of the live classes
+(regenerated on every run, `Generated/C17Scheme.lean`), `asdictZ` / `fromdict` are `glotaran.project.dataclass_helpers`,
+`emitPV` / `resolveTok` what ruamel (YAML 1.2) writes and resolves. -/
+
+/-- **Every scalar the declared types admit is written and comes back as the same python value of the same type**:
+    None as `null`, bools as `true` / `false`, ints of any size in decimal (resolved as int, not float), floats in the
+    text of python's `repr` — `1e-08`, `1.5e-07`, `1e+20`, `0.001`, `.inf`, `.nan`: resolved as *float* by the 1.2
+    resolver without any `.0` and without the scientific-notation sanitiser of `load_model` —, strings plain or quoted
+    (a string that a plain scalar would not give back as a string — `'1e3'`, `'null'`, `'true'`, `'5'`, `''` — is
+    quoted, for whatever other reasons `ps` the emitter quotes), lists of strings; what ruamel has no representer for
+    (numpy scalars) raises (`emitPV ps (.other _) = none`). -/
+theorem yaml_scalar_roundtrip (ps : Str → Bool) (v : PV) (h : pvWritable v = true) :
+    ∃ y, emitPV ps v = some y ∧ loadNode y = v := scalar_roundtrip ps v h
+
+example : pvWritable (.flt "1e-08".toList) = true ∧ yKind "1e-08".toList = .float ∧ yKind "1.0".toList = .float ∧
+    yKind "1".toList = .int ∧ yKind "-.inf".toList = .float ∧ yKind "nearest".toList = .rest ∧
+    strTok (fun _ => true) "1e3".toList = .quoted "1e3".toList ∧ strTok (fun _ => true) "null".toList = .quoted "null".toList ∧
+    emitPV (fun _ => true) (.other "numpy.float64".toList) = none ∧
+    resolveTok (.plain "123456789012345678901234567890".toList) = .int 123456789012345678901234567890 := by decide
+
+/-- **The field table of the live `Scheme` class is one `asdict` / `fromdict` can carry**: distinct names, every
+    written field has a yaml type (float, int, bool, str, a `Literal` of strings, `… | None`, `list[str]`) and is an
+    `__init__` argument, and `save_scheme` / `load_scheme` are `asdict` / `fromdict` relative to the folder of the file.
+    A new field of another type, a renamed helper or a changed folder argument re-opens this theorem. -/
+theorem scheme_table_wellformed :
+    tableOK Generated.schemeFields = true ∧ Generated.schemeSaveShape = .asdictParentFolder ∧
+    Generated.schemeLoadShape = .fromdictParentFolder "Scheme" := by decide
+
+/-- the same for the live `Result` class; the keys `load_result` renames (old names) are not field names, and
+    `save_result` overrides exactly the `scheme` and `initial_parameters` references, both file-loadable fields -/
+theorem result_table_wellformed :
+    tableOK Generated.resultFields = true ∧ Generated.resultLoadShape = .fromdictParentFolder "Result" ∧
+    Generated.saveResultOverrides = some ["scheme", "initial_parameters"] ∧
+    (∀ r ∈ Generated.loadResultRenames, (Generated.resultFields.map (·.name)).contains r.1 = false) ∧
+    (∀ f ∈ Generated.resultFields, f.name = "scheme" ∨ f.name = "initial_parameters" → f.kind = .fileOne) := by decide
+
+/-- **`save_scheme` → scheme.yml → `load_scheme`**: for every scheme whose option fields hold values their declared
+    types admit (tolerances any float incl. `1e-08`, inf; `maximum_number_function_evaluations` None or any int;
+    `add_svd`; the `Literal` strings; `result_path` None or any string) and whose model / parameters / datasets carry
+    any source paths, writing succeeds and the loaded scheme has the same option values (same type: an int stays an int,
+    `1.0` stays a float), `source_path` / `loader` at their defaults, and for every component the reference
+    `relative_posix_path(source_path, folder of the file)` (which leads back to the file under `scheme_refs_partial`). -/
+theorem scheme_spec_roundtrip (ps : Str → Bool) (cwd : List Str) (file : Str) (vs : List FV)
+    (hc : conformsZ Generated.schemeFields vs = true) :
+    (saveSchemeDoc ps cwd file vs).bind loadSchemeDoc
+      = some (loadedZ cwd (some (parentFolder file)) Generated.schemeFields vs) := by
+  have h := spec_roundtrip_generic ps cwd (some (parentFolder file)) Generated.schemeFields vs scheme_table_wellformed.1 hc
+  cases he : emitDoc ps (asdictZ cwd (some (parentFolder file)) Generated.schemeFields vs) with
+  | none => rw [he] at h; simp at h
+  | some d =>
+    rw [he] at h
+    simp only [Option.bind_some] at h
+    simp only [saveSchemeDoc, loadSchemeDoc, scheme_table_wellformed.2.1, scheme_table_wellformed.2.2, he, Option.bind_some]
+    simpa using h
+
+/-- a scheme with the default tolerances, a function evaluation limit, components saved next to / below / outside -/
+def exampleScheme : List FV :=
+  [.comp (some "in/model.yml".toList), .comp (some "/abs/p.csv".toList), .comps [("d1".toList, "in/data/d1.nc".toList)],
+   .pv (.flt "0.0".toList), .pv (.str "nearest".toList), .pv (.int 25), .pv (.bool true),
+   .pv (.flt "1e-08".toList), .pv (.flt "1.5e-07".toList), .pv (.flt "0.001".toList),
+   .pv (.str "Levenberg-Marquardt".toList), .pv .none, .hidden, .hidden]
+
+example : conformsZ Generated.schemeFields exampleScheme = true := by decide
+
+/-- **`save_result` (the result.yml part) → `load_result`**: for every result whose statistics hold values their declared
+    types admit (ints, `float | None` incl. nan / inf, bool, strings, the list of free parameter labels), with
+    `scheme` / `initial_parameters` referring to the files this save wrote (`sc`, `sp`), the loaded result has the same
+    values bit for bit (the float *text* is python's `repr`, which identifies the double), None for the excluded arrays
+    (`cost`, `jacobian`, `covariance_matrix`, `additional_penalty`), and the references of `refs_relative_to_result_folder`;
+    the old key names `load_result` still accepts never occur in a written file. -/
+theorem result_spec_roundtrip (ps : Str → Bool) (cwd : List Str) (folder sc sp : Str) (vs : List FV)
+    (hc : conformsZ Generated.resultFields vs = true) :
+    (saveResultDoc ps cwd folder sc sp vs).bind loadResultDoc
+      = some (loadedZ cwd (some folder) Generated.resultFields
+          (setSrc "initial_parameters" sp Generated.resultFields (setSrc "scheme" sc Generated.resultFields vs))) := by
+  obtain ⟨hT, hL, hO, hR, hK⟩ := result_table_wellformed
+  have hc' : conformsZ Generated.resultFields
+      (setSrc "initial_parameters" sp Generated.resultFields (setSrc "scheme" sc Generated.resultFields vs)) = true :=
+    conformsZ_setSrc _ _ _ _ (fun f hf hn => hK f hf (Or.inr hn))
+      (conformsZ_setSrc _ _ _ _ (fun f hf hn => hK f hf (Or.inl hn)) hc)
+  have h := spec_roundtrip_generic ps cwd (some folder) Generated.resultFields _ hT hc'
+  rw [emitDoc_asdict ps cwd (some folder) _ _ hc'] at h
+  simp only [Option.bind_some] at h
+  simp only [saveResultDoc, loadResultDoc, hO, hL, emitDoc_asdict ps cwd (some folder) _ _ hc', Option.bind_some]
+  rw [foldl_renameKey_id _ _ (fun r hr => lookup_docOf_none ps cwd (some folder) _ _ r.1 (hR r hr))]
+  simpa using h
+
+/-- statistics of a converged and of a failed optimisation -/
+def exampleResult : List FV :=
+  [.pv (.int 7), .pv (.bool true), .pv (.str "`ftol` termination condition is satisfied.".toList), .pv (.str "0.7.2".toList),
+   .pv (.strs ["k.1".toList, "irf.center".toList]), .comp (some "scheme.yml".toList), .comp (some "old/initial_parameters.csv".toList),
+   .comp (some "/abs/out/optimized_parameters.csv".toList), .comp (some "out/parameter_history.csv".toList),
+   .comp (some "out/optimization_history.csv".toList), .comps [("d1".toList, "out/d1.nc".toList)], .hidden, .hidden,
+   .pv (.flt "8.674768301156866e-07".toList), .hidden, .pv (.int 93), .pv (.int 6), .hidden, .pv (.int 100), .pv (.int 5), .pv (.int 1),
+   .pv (.flt "1e-08".toList), .pv (.flt ".nan".toList), .pv .none, .hidden, .hidden]
+
+example : conformsZ Generated.resultFields exampleResult = true := by decide
 
 end Glotaran.C17
